@@ -1012,6 +1012,10 @@ func readMPUB(r io.Reader, tmp []byte, topic *Topic, maxMessageSize int64, maxBo
 			fmt.Sprintf("MPUB invalid message count %d", numMessages))
 	}
 
+	// the whole batch (message count plus every length-prefixed message)
+	// must fit in maxBodySize, whatever size the client declared
+	totalSize := int64(4)
+
 	messages := make([]*Message, 0, numMessages)
 	for i := int32(0); i < numMessages; i++ {
 		messageSize, err := readLen(r, tmp)
@@ -1028,6 +1032,12 @@ func readMPUB(r io.Reader, tmp []byte, topic *Topic, maxMessageSize int64, maxBo
 		if int64(messageSize) > maxMessageSize {
 			return nil, protocol.NewFatalClientErr(nil, "E_BAD_MESSAGE",
 				fmt.Sprintf("MPUB message too big %d > %d", messageSize, maxMessageSize))
+		}
+
+		totalSize += 4 + int64(messageSize)
+		if totalSize > maxBodySize {
+			return nil, protocol.NewFatalClientErr(nil, "E_BAD_BODY",
+				fmt.Sprintf("MPUB body too big %d > %d", totalSize, maxBodySize))
 		}
 
 		msgBody := make([]byte, messageSize)
